@@ -15,7 +15,7 @@
   `cst (ideal ρ e)` of width `e.size` — proved by structural induction, for every fuel and complexity oracle.
   `simplify_sound` / `oper_sound` / `slice_sound` / `compose_sound` / `extend_sound`: the induction through the
   whole rewrite system (`Amoco.soundIH_all`, on the fuel of the mutual block): on the sign-agnostic fragment
-  (`Plain`), with plain `simplify()` options and the complexity threshold off, under `NoRenderClash ρ`, the
+  (`Plain`), for `simplify()` and `simplify(bitslice=True)`, with the complexity threshold off, under `NoRenderClash ρ`, the
   result of every entry point is again `Plain`, well-formed, of the dictated width, and has the ideal value its
   construction dictates.  What is outside that fragment is listed at `simplify_sound_partial` (widths and
   well-formedness hold there too: C12).
@@ -321,13 +321,13 @@ abbrev NoThreshold (cfg : Cfg) : Prop := ∀ e, cfg.cplx e = false
 
 /-- **simplify_sound**.  `e` well-formed and in the sign-agnostic fragment `Plain` (constants, registers,
     slices, compositions, conditionals, `+ - * & | ^ == != <. >=. << >> //` and unary `- ~`, all widths, shifts by
-    any amount): whatever `e.simplify()` returns is again well-formed and `Plain`, has the width of `e`, and
+    any amount): whatever `e.simplify()` or `e.simplify(bitslice=True)` returns is again well-formed and `Plain`, has the width of `e`, and
     under every valuation without rendering clashes **the same value as `e`**.  For every fuel. -/
-theorem simplify_sound (cfg : Cfg) (hc : NoThreshold cfg) (ρ : Val) (hρ : NoRenderClash ρ) (fuel : Nat) (e r : Expr)
-    (he : WF e) (hp : Plain e) (h : simplify cfg fuel {} e = .ok r) :
+theorem simplify_sound (cfg : Cfg) (hc : NoThreshold cfg) (ρ : Val) (hρ : NoRenderClash ρ) (fuel : Nat) (opts : Opts)
+    (ho : opts.widening = false) (e r : Expr) (he : WF e) (hp : Plain e) (h : simplify cfg fuel opts e = .ok r) :
     WF r ∧ r.size = e.size ∧ Plain r ∧ ideal ρ r = ideal ρ e := by
-  obtain ⟨h1, h2⟩ := (widthIH_all cfg fuel).simplify {} e he r h
-  obtain ⟨h3, h4⟩ := (soundIH_all cfg hc ρ hρ fuel).simplify {} e he hp OptsOK_default r h
+  obtain ⟨h1, h2⟩ := (widthIH_all cfg fuel).simplify opts e he r h
+  obtain ⟨h3, h4⟩ := (soundIH_all cfg hc ρ hρ fuel).simplify opts e he hp ho r h
   exact ⟨h1, h2, h3, h4⟩
 
 /-- **oper_sound**.  `_operator.__call__(l, r)` (the Python operators `l + r`, `l & r`, `l == r`, `ltu(l,r)`,
@@ -392,7 +392,7 @@ correspondence tie and the reference evaluator) for:
     declared-signedness side condition `SignOK` is not threaded through the rewriting of their operands);
   * `top`, `vec`, `vecw`, `mem`, `ptr` (non-deterministic or memory-dependent meanings: C19 / C13), externals
     (`ext == 0 ⇒ false` is an assumption about the loader), a unary operator applied to a literal constant;
-  * the options `bitslice=True` (rule lemmas: `bitslice_logic`, `shl/shr_to_comp`) and `widening=True`;
+  * the option `widening=True` (it produces `vecw`);
   * the complexity threshold on (it introduces `top`).
 The evaluation half is finished for all operators (`eval_sound` above). -/
 theorem simplify_sound_partial (cfg : Cfg) (fuel : Nat) (opts : Opts) (e r : Expr) (he : WF e)
